@@ -351,7 +351,68 @@ func c19Fanout(p *Program, r *Report) {
 			rng = x
 		}
 	}
+	// events of one publisher reach a subscriber in publication order only if the fan-out completes before Publish returns:
+	// no tell of the stream may run on a goroutine spawned by Publish
+	for _, af := range withAnon(fn) {
+		for _, b := range af.Blocks {
+			for _, in := range b.Instrs {
+				gi, isGo := in.(*ssa.Go)
+				if !isGo {
+					continue
+				}
+				var target *ssa.Function
+				if mc, isMC := gi.Call.Value.(*ssa.MakeClosure); isMC {
+					target, _ = mc.Fn.(*ssa.Function)
+				} else if sc := gi.Call.StaticCallee(); sc != nil {
+					target = sc
+				} else {
+					// go f() with f a local closure value
+					for _, cand := range withAnon(fn) {
+						if cand != fn {
+							for _, ts := range p.tellSites(cand) {
+								_ = ts
+								target = cand
+							}
+						}
+					}
+				}
+				if target == nil {
+					continue
+				}
+				async := false
+				for _, tf := range withAnon(target) {
+					if len(p.tellSites(tf)) > 0 {
+						async = true
+					}
+					for _, bb := range tf.Blocks {
+						for _, in2 := range bb.Instrs {
+							if c := callOf(in2); c != nil && c.StaticCallee() == p.tellFunc() {
+								async = true
+							}
+						}
+					}
+				}
+				if async {
+					r.Violate("Publish delivers on a goroutine", gi.Pos(), "the fan-out (or part of it) runs on a goroutine spawned by Publish: two consecutive publishes of one publisher start unordered goroutines, a subscriber can see event n+1 before event n")
+				}
+			}
+		}
+	}
 	if rng == nil {
+		// the loop may live in a local closure called synchronously
+		for _, af := range withAnon(fn) {
+			if af == fn {
+				continue
+			}
+			for _, b := range af.Blocks {
+				for _, in := range b.Instrs {
+					if _, ok := in.(*ssa.Range); ok {
+						r.Undecided("Publish fan-out loop in a local closure", in.Pos(), "the loop over the snapshot is not in Publish's own body: the exactly-once fan-out is not decided for this shape")
+						return
+					}
+				}
+			}
+		}
 		r.Unresolved("Publish has no range loop over subscribers")
 		return
 	}
